@@ -10,7 +10,14 @@ CaseOf(l, b) == LET lo == M[l + 1][b].lo[1]
                 IN IF pos > Centre(l, hi) THEN (IF hi = NCells(l) - 1 THEN "beyond-last-centre-of-domain" ELSE "gap-after-last-centre")
                    ELSE IF pos < Centre(l, lo) THEN (IF lo = 0 THEN "before-first-centre-of-domain" ELSE "gap-before-first-centre")
                    ELSE IF \E i \in lo..hi : Centre(l, i) = pos THEN "on-centre" ELSE "between-centres"
-Sig == <<Len(M), lim, [l \in 0..lim |-> {CaseOf(l, b) : b \in {b2 \in DOMAIN M[l + 1] : Crossed(l, b2)}}]>>
+CrossedSet(l) == {b \in DOMAIN M[l + 1] : Crossed(l, b)}
+NeighbourSet(l) == {b \in DOMAIN M[l + 1] : ~Crossed(l, b) /\ 2 * U(l) * M[l + 1][b].lo[1] - U(l) <= 2 * pos
+                                                /\ 2 * pos <= 2 * U(l) * (M[l + 1][b].hi[1] + 1) + U(l)}
+Overhang(l) == \E n \in NeighbourSet(l) : \E c \in CrossedSet(l) :
+                  /\ ~(M[l + 1][n].hi[2] < M[l + 1][c].lo[2] \/ M[l + 1][c].hi[2] < M[l + 1][n].lo[2])
+                  /\ (M[l + 1][n].lo[2] < M[l + 1][c].lo[2] \/ M[l + 1][n].hi[2] > M[l + 1][c].hi[2])
+Sig == <<Len(M), lim, [l \in 0..lim |-> <<{CaseOf(l, b) : b \in CrossedSet(l)}, Cardinality(CrossedSet(l)),
+                                           Cardinality(NeighbourSet(l)), IF Overhang(l) THEN "overhang" ELSE "flush">>]>>
 Scenario == [prop |-> "C16", sig |-> Sig, n0 |-> N0, t0 |-> T0, mesh |-> M, pos |-> pos, lim |-> lim, unit |-> U(0),
              expect |-> [l \in 0..lim |->
                            [boxes |-> CrossedBoxes(l),
